@@ -136,7 +136,7 @@ def build():
         ],
         'checks': checks,
         'not_applicable': [{'property_id': p, 'reason': PENDING_REASON} for p in ALL if p not in CLAIMED],
-        'notes': 'Single entry point ./check <id> [--tier quick|thorough] [--replay path]. Exit 0 held / 1 VIOLATION / 2 machinery failure (an exception or hang INSIDE the implementation during a check is a VIOLATION). known_findings.jsonl lists fixed defects and recorded findings. ./check EXT runs the extensions of the specification beyond the listed properties (DESIGN 11.1; EXTENSION-MISMATCH, not a claimed property). spec/README.md + spec/cfg/: every specification can be model-checked by hand. seeded/ (122 seeded breaking changes from independent sub-agents, with REGRESSION.json) and controls/ (24 property-preserving changes) are the evaluation of the checks themselves.',
+        'notes': 'Single entry point ./check <id> [--tier quick|thorough] [--replay path]. Exit 0 held / 1 VIOLATION / 2 machinery failure (an exception or hang INSIDE the implementation during a check is a VIOLATION). known_findings.jsonl lists fixed defects and recorded findings. ./check EXT runs the extensions of the specification beyond the listed properties (DESIGN 11.1; EXTENSION-MISMATCH, not a claimed property). spec/README.md + spec/cfg/: every specification can be model-checked by hand. seeded/ (142 seeded breaking changes from independent sub-agents, with REGRESSION.json) and controls/ (24 property-preserving changes) are the evaluation of the checks themselves.',
     }
     return man
 
